@@ -150,7 +150,7 @@ pub fn subchecks(tier: Tier) -> Vec<SubCheck> {
     v.push(generated(
         "generated_pairs",
         "pairs of strings <= 64 over alphabets 1..64: independent, derived by edits, runs, rotations, reversals, interleavings, lengths 63/64; also through FuzzyHashCompareTarget::block_hash_{1,2}() when a is normalised; non-trivial = both non-empty and 0 < d < la+lb; distinct by (a,b)",
-        tier.pick(1_500_000, 20_000_000),
+        tier.pick(6_000_000, 60_000_000),
         strategy,
         eval,
     ));
